@@ -5,3 +5,5 @@ open Biogo.Properties.C11_checker
 #print axioms historyStatement_sound
 #print axioms checkHistory_complete
 #print axioms checkHistory_iff
+#print axioms rejectsStatement_sound
+#print axioms programStatement_sound
